@@ -5,12 +5,16 @@
 //!   build₁ succeeds, parse₂ succeeds, logical(parse₂) = logical(parse₁), build₂ = build₁;
 //!   an unmutated CDN fixture must additionally satisfy build₁ = input (labelled as a test);
 //!   a builder's value must satisfy logical(parse(serialise(value))) = logical(value).
-//! K (modelled formats: install, download v1–v3, size v1/v2, ZBSDIFF container): the same
-//!   pipeline is printed as one response line (`m <fmt> <hex>`) and compared with the Lean model.
+//! K (modelled formats: install, download v1–v3, size v1/v2, ZBSDIFF container, patch index): the
+//!   same pipeline is printed as one response line (`m <fmt> <hex>`) and compared with the Lean
+//!   model; `tv <cft_table_size> <hex>` / `tc <flags> <hex>` compare the TVFS VFS-table reader and
+//!   the container-table slack arithmetic (the mechanism of the TVFS findings) with their models.
 //!
 //! Request lines:
 //!   m  <fmt> <hex>                 modelled format; detailed response compared with the model
 //!   o  <fmt> <hex>                 oracle-only format; both sides answer `-`
+//!   tv <cft_size> <hex>           VfsTable::parse under a header with that container-table size
+//!   tc <flags> <hex>              ContainerFileTable::parse + build: entry count, rebuilt size
 //!   of <fmt> <fixture> <muts>      oracle-only, input = fixture file with mutations applied
 //!                                  (muts: `-` or comma list of s<pos>=<hh> | t<len> | a<hex> |
 //!                                  i<pos>=<hex> | d<pos>+<n>); both sides answer `-`
@@ -1316,7 +1320,7 @@ fn main() {
     quiet_panics();
     let args = Args::parse();
     let mut cx = Ctx { s: Session::new(&args.out), fixtures: load_fixtures() };
-    cx.s.rule = "inputs: (a) every CDN fixture of crates/cascette-formats/test_fixtures unmutated (byte-identity test) and under 1-3 random mutations aimed at header fields, counts, sizes, footers, truncation, trailing bytes, small inserts/deletes (text formats: white space, separators, comments, CR/LF, non-ASCII); (b) outputs of every format's builder on random programs, unmutated (builder-form claim) and mutated; (c) hand-framed size/download/install/ZBSDIFF headers over every version, key size, esize width, has_checksum byte 0/1/2/255, flag size 0-5, reserved bytes, sizes at 0/2^31/10^9+-1. Each input runs parse->build->parse->build on the real code. non-trivial = the first parse ACCEPTED the input (so the fixed-point claim was actually evaluated); distinct = (format, input hash)".into();
+    cx.s.rule = "inputs: (a) every CDN fixture of crates/cascette-formats/test_fixtures unmutated (byte-identity test) and under 1-3 random mutations aimed at header fields, counts, sizes, footers, truncation, trailing bytes, small inserts/deletes (text formats: white space, separators, comments, CR/LF, non-ASCII); (b) outputs of every format's builder on random programs, unmutated (builder-form claim) and mutated; (c) hand-framed size/download/install/ZBSDIFF headers over every version, key size, esize width, has_checksum byte 0/1/2/255, flag size 0-5, reserved bytes, sizes at 0/2^31/10^9+-1; hand-framed patch indices over every extra-header shape (absent, key size 0..16, > 16, with extra data, overrunning), block-type sequences (1/2/8/unknown, 2 before/after 8, repeated), header_size before / at / after the end of the descriptors, block-8 data offsets 0/8/14/20/300, key sizes 0..200 with and without entries, wrong counts / sizes / data_size, each also with 1-3 mutations and data_size repaired; (d) component lines for TVFS: VfsTable::parse on random entry sequences under cft_table_size at every offset-width boundary (tables written for the header's width or for another one), ContainerFileTable::parse+build on random lengths with and without slack. Each whole-file input runs parse->build->parse->build on the real code. non-trivial = the first parse ACCEPTED the input (so the fixed-point claim was actually evaluated); distinct = (format, input hash)".into();
     if let Some(p) = &args.replay {
         for l in read_case(p) {
             cx.run_req(&l);
